@@ -69,3 +69,8 @@ open Pandora.C13
 #print axioms bilateralStep_equivariant
 #print axioms bilateralFilterDisparity_is_bilateralStep
 #print axioms bilateral_crop_eq_whole
+#print axioms filtStage_local
+#print axioms filtStage_equivariant
+#print axioms bilateralStage_local
+#print axioms ccOn_local
+#print axioms ccOn_equivariant
